@@ -129,6 +129,7 @@ def gen_movie(rng, thorough=False, plant_history=False, dense=False):
             crowd.append([ci + rng.randint(-rad, rad) for ci in c])
         frames[k] = crowd
         frames[k + 1] = [list(c)] + ([[ci + 3 * int(max(sr) / 4.0) + 2 for ci in c]] if rng.random() < 0.5 else [])
+    star = False
     if dim == 2 and nfr >= 2 and rng.random() < 0.06:
         # a "crowded star": ONE source with 11 features within range while every feature has about six
         # candidate sources; ten helper sources sit right beside the star's ten nearest features, so
@@ -146,6 +147,7 @@ def gen_movie(rng, thorough=False, plant_history=False, dense=False):
         helpers = [(int(round(1.06 * o[0])), int(round(1.06 * o[1]))) for o in offs[:10]]
         ok = len(set(offs)) == 11 and len(set(helpers) | set(offs)) == 21 and max(d2[:10]) < d2[10] < R * R
         if ok:
+            star = True
             zoom = max(1, int(R / (max(sr) / 4.0)))     # the other levels keep their density
             sr, iso = [4 * R, 4 * R], True
             k = rng.randrange(0, nfr - 1)
@@ -172,7 +174,7 @@ def gen_movie(rng, thorough=False, plant_history=False, dense=False):
     # a range of R_l <= 768 units: relative (1/R_l)^2/2 >= 8e-7, absolute >= 6e-7 px) well above the
     # 1e-7 slack HashKDTree.query adds to the range (relative for per-axis ranges, absolute else).
     fine = 0
-    if rng.random() < 0.15:
+    if rng.random() < 0.15 and not star:      # (a star's range of 40 units would put K*R beyond 768)
         fine = rng.choice([64, 256])
         frames = [[[c * fine + rng.randint(-1, 1) for c in p] for p in f] for f in frames]
         sr = [a * fine for a in sr]
